@@ -20,6 +20,12 @@
 //         after the admission fence, when there is more than one shard); one SEND is handed over,
 //         then (drain=1) DrainSends runs while the submit is parked; after <wait_ms> or when the
 //         drain returned the gate opens.  All waits are verdict-neutral.
+//   redrain <wait_ms>
+//         steered shard re-arm (must directly follow cfg): the executor's mailbox is re-created with an
+//         observer; SEND 1 of a new session is handled, and in the window between its drain's last
+//         empty check and finishShardDrain SEND 2 is admitted (re-arms the shard); SEND 2's handler is
+//         held, SEND 3 is admitted meanwhile — a second concurrent drain of that shard would let
+//         SENDACK 3 overtake SENDACK 2.  The hold ends when ack 3 shows up or after <wait_ms> (neutral).
 //   fin   -> DrainSends (watchdog), Stop, snapshot of which sessions are still open
 // output of phase/fin = the events logged since the previous op (see ev()).
 package main
@@ -44,6 +50,7 @@ import (
 	"github.com/WuKongIM/WuKongIM/pkg/gateway/transport"
 	gatewaytypes "github.com/WuKongIM/WuKongIM/pkg/gateway/types"
 	"github.com/WuKongIM/WuKongIM/pkg/protocol/frame"
+	"github.com/WuKongIM/WuKongIM/pkg/workqueue"
 )
 
 func init() {
@@ -68,6 +75,16 @@ func genC28(g *Gen) {
 		} else {
 			g.Count("steered:drain-while-parked")
 			g.Op("gate", "1 %d", 300)
+		}
+		g.Op("fin", "")
+	}
+	for k := 0; k < 4; k++ { // steered: a shard re-armed in the drain window must not get a second drainer
+		g.Case()
+		g.Count("case:steered-shard-rearm")
+		g.Op("cfg", "%d %d %d %d %d", g.R.Range(2, 4), 4096, 1, -1, 0)
+		g.Op("redrain", "%d", 300)
+		if g.R.Chance(50) {
+			g.Op("phase", "%d %d %d %d %d %d %d %d", g.R.U64()>>1, 2, 5, 0, 0, 0, 0, 0)
 		}
 		g.Op("fin", "")
 	}
@@ -171,6 +188,17 @@ func (l *c28Log) add(format string, a ...any) {
 	l.ev = append(l.ev, s)
 	l.mu.Unlock()
 	l.n.Add(1)
+}
+
+func (l *c28Log) has(prefix string) bool {
+	l.mu.Lock()
+	defer l.mu.Unlock()
+	for _, e := range l.ev {
+		if strings.HasPrefix(e, prefix) {
+			return true
+		}
+	}
+	return false
 }
 
 func (l *c28Log) take() string {
@@ -408,6 +436,14 @@ func (u *c28Usecase) SendBatchEach(items []message.SendBatchItem, emit func(int,
 		fmt.Fprintf(&sb, "H%d:%d:%d", sids[i], it.Command.ClientSeq, k)
 	}
 	r.log.add("%s", sb.String())
+	if hs := r.holdSend.Load(); hs != nil {
+		for i, it := range items {
+			if sids[i] == hs.sid && it.Command.ClientSeq == hs.seq {
+				close(hs.entered)
+				<-hs.release
+			}
+		}
+	}
 	r.stats.batches.Add(1)
 	if len(items) > 1 {
 		r.stats.multi.Add(1)
@@ -474,7 +510,35 @@ type c28Stats struct {
 	batches, multi, batchFail, emitErr atomic.Int64
 }
 
+type c28HoldSend struct {
+	sid, seq         uint64
+	entered, release chan struct{}
+}
+
+// c28MailboxObs fires `fn` once, at the first "worker leaves" observation after it was armed
+// (drainScheduledShard: after the drain loop saw its queue empty, before finishShardDrain).
+type c28MailboxObs struct {
+	mu    sync.Mutex
+	phase map[int]int
+	armed atomic.Bool
+	fn    func()
+}
+
+func (o *c28MailboxObs) ObserveShardedMailbox(obs workqueue.ShardedMailboxObservation) {
+	if obs.Kind != "worker" || obs.Shard < 0 {
+		return
+	}
+	o.mu.Lock()
+	o.phase[obs.Shard]++
+	leaving := o.phase[obs.Shard]%2 == 0
+	o.mu.Unlock()
+	if leaving && o.armed.CompareAndSwap(true, false) {
+		o.fn()
+	}
+}
+
 type c28Runner struct {
+	holdSend    atomic.Pointer[c28HoldSend]
 	srv         *core.Server
 	fac         *c28Factory
 	log         *c28Log
@@ -587,6 +651,13 @@ func (r *c28Runner) Step(op string) string {
 			}
 		}
 		r.runPhase(uint64(a[0]), int(a[1]), int(a[2]), int(a[3]), int(a[4]), int(a[5]), int(a[6]), int(a[7]))
+		return r.log.take()
+	case "redrain":
+		a, ok := atoiAll(f[1:])
+		if !ok || len(a) != 1 || a[0] < 0 || a[0] > 5000 || r.srv == nil || len(r.conns) != 0 {
+			return "bad-op"
+		}
+		r.runRedrain(time.Duration(a[0]) * time.Millisecond)
 		return r.log.take()
 	case "gate":
 		a, ok := atoiAll(f[1:])
@@ -707,6 +778,54 @@ func (r *c28Runner) runPhase(seed uint64, nsess, burst, hlat, failpct, closepct,
 		}
 	}
 	wg.Wait()
+}
+
+func (r *c28Runner) runRedrain(wait time.Duration) {
+	r.phase.Store(&c28Phase{seed: 9})
+	h := r.fac.handler
+	obs := &c28MailboxObs{phase: map[int]int{}}
+	if !r.srv.VerifObserveSendMailbox(obs) {
+		return
+	}
+	c := &c28Conn{id: uint64(len(r.conns) + 1), log: r.log}
+	r.conns = append(r.conns, c)
+	r.log.add("O%d", c.id)
+	_ = h.OnOpen(c)
+	hold := &c28HoldSend{sid: c.id, seq: 2, entered: make(chan struct{}), release: make(chan struct{})}
+	r.holdSend.Store(hold)
+	injected := make(chan struct{})
+	obs.fn = func() { // on the worker goroutine, inside the drain window
+		r.log.add("S%d:2", c.id)
+		_ = h.OnData(c, c28Frame('S', 2, 2))
+		close(injected)
+	}
+	obs.armed.Store(true)
+	r.log.add("S%d:1", c.id)
+	_ = h.OnData(c, c28Frame('S', 1, 2))
+	ok := false
+	select {
+	case <-injected:
+		select {
+		case <-hold.entered: // SEND 2 is in its handler: the re-armed drain is running
+			ok = true
+		case <-time.After(20 * time.Second):
+		}
+	case <-time.After(20 * time.Second):
+	}
+	obs.armed.Store(false)
+	if ok {
+		r.log.add("S%d:3", c.id)
+		_ = h.OnData(c, c28Frame('S', 3, 2))
+		deadline := time.Now().Add(wait)
+		for time.Now().Before(deadline) { // only a second drainer can acknowledge SEND 3 now
+			if r.log.has(fmt.Sprintf("A%d:3:", c.id)) {
+				break
+			}
+			time.Sleep(2 * time.Millisecond)
+		}
+	}
+	close(hold.release)
+	r.holdSend.Store(nil)
 }
 
 func (r *c28Runner) runGate(withDrain bool, wait time.Duration) {
